@@ -49,11 +49,6 @@ import (
 	"github.com/semihalev/sdns/middleware"
 )
 
-const (
-	vC18KeySpecial = "blocklist-reload-special-chars"
-	vC18KeyTemp    = "blocklist-stale-temp-reloaded"
-	vC18KeyEscDot  = "blocklist-escaped-dot-label"
-)
 
 func vC18EnvInt(name string, def int) int {
 	if s := os.Getenv(name); s != "" {
@@ -785,7 +780,7 @@ func vC18CaseEscDot(t *testing.T, r *rand.Rand, out *vC18Out) {
 	if r.Intn(2) == 0 {
 		got := b.Exists(query)
 		out.emit("exists-escdot", fmt.Sprintf("CaseExists %s %s %s [(%s, %v)]", vC18List(m), vC18List(wild), vC18List(w), vC18Str(query), got),
-			map[string]any{"m": m, "wild": wild, "w": w, "exists": []any{query, got}}, true, "", vC18KeyEscDot)
+			map[string]any{"m": m, "wild": wild, "w": w, "exists": []any{query, got}}, true, "", "")
 		return
 	}
 	qt := vC18Qtypes[r.Intn(len(vC18Qtypes))]
@@ -797,7 +792,7 @@ func vC18CaseEscDot(t *testing.T, r *rand.Rand, out *vC18Out) {
 	nr := vC18IPNum(net.ParseIP(cfg.Nullroute), true)
 	nr6 := vC18IPNum(net.ParseIP(cfg.Nullroutev6), false)
 	out.emit("serve-escdot", fmt.Sprintf("CaseServe %s %s %s %s%%N %s%%N %s %d%%N (%s)", vC18List(m), vC18List(wild), vC18List(w), nr, nr6, vC18Str(seen), qt, o),
-		desc, true, "", vC18KeyEscDot)
+		desc, true, "", "")
 }
 
 // a pool of keys small enough that removals hit and batches overlap
@@ -927,14 +922,18 @@ func vC18CaseHistory(t *testing.T, r *rand.Rand, out *vC18Out, special bool) {
 	}
 	m1, wild1, _ := vC18Dump(b)
 	present, file := vC18ReadLocal(dir)
-	if !special {
-		out.emit("history", fmt.Sprintf("CaseHistory %s %s %s [%s] %s %s %s", vC18List(m0), vC18List(wild0), vC18List(w), strings.Join(parts, "; "),
+	hk := "history"
+	if special {
+		hk = "history-special"
+	}
+	{
+		out.emit(hk, fmt.Sprintf("CaseHistory %s %s %s [%s] %s %s %s", vC18List(m0), vC18List(wild0), vC18List(w), strings.Join(parts, "; "),
 			vC18List(m1), vC18List(wild1), vC18OptStr(present, file)),
 			map[string]any{"m0": m0, "wild0": wild0, "w": w, "ops": descOps, "m1": m1, "wild1": wild1, "file_present": present, "file": file}, anyOK, "", "")
 	}
 	if len(cfg.Blocklist) == 0 && present {
 		if special {
-			vC18EmitReload(r, out, "reload-special", dir, cfg.Whitelist, m1, wild1, vC18KeySpecial)
+			vC18EmitReload(r, out, "reload-special", dir, cfg.Whitelist, m1, wild1, "")
 		} else {
 			vC18EmitReload(r, out, "reload", dir, cfg.Whitelist, m1, wild1, "")
 		}
@@ -1413,8 +1412,9 @@ func vC18CaseCrash(t *testing.T, r *rand.Rand, out *vC18Out, kill bool) {
 				k = "crash-at-line-end"
 			}
 			fkey := ""
-			if len(temps) > 0 {
-				fkey = vC18KeyTemp
+			goFail := ""
+			if left, _ := filepath.Glob(filepath.Join(dir, "local.tmp.*")); len(left) > 0 {
+				goFail = fmt.Sprintf("%d temp file(s) of an interrupted persist survive the restart", len(left))
 			}
 			ctor := "CaseCrash"
 			if !kill {
@@ -1430,7 +1430,7 @@ func vC18CaseCrash(t *testing.T, r *rand.Rand, out *vC18Out, kill bool) {
 				vC18List(oldM), vC18List(oldWild), vC18List(newM), vC18List(newWild)),
 				map[string]any{"whitelist": whitelist, "old_file": old, "op": []any{op.Kind, op.Keys}, "limit": limit, "killed_by_SIGXFSZ": killed,
 					"local_after": local, "temp_files_after": temps, "reloaded_m": rm, "reloaded_wild": rwild,
-					"previous_m": oldM, "previous_wild": oldWild, "new_m": newM, "new_wild": newWild}, true, "", fkey)
+					"previous_m": oldM, "previous_wild": oldWild, "new_m": newM, "new_wild": newWild}, true, goFail, fkey)
 			return
 		}
 		if try > 20 {
